@@ -148,6 +148,9 @@ class TUPLE(Sort):
         return "TUPLE%r" % (self.items,)
 
 
+_list_cache = {}
+
+
 class LIST(Sort):
     """Python list / str / C++ vector: (Array Int->elem, length).  Value semantics (see engine:
     in-place mutation of a list that may be aliased is reported Unsupported)."""
@@ -157,7 +160,14 @@ class LIST(Sort):
         self.is_str = is_str
 
     def z3sort(self):
-        raise Unsupported("list has no single z3 sort")
+        # a list as a VALUE inside another container (dict values, tuple items): the pair (array, length)
+        es = self.elem.z3sort()
+        key = str(es) + ("#s" if self.is_str else "")
+        if key not in _list_cache:
+            dt = z3.Datatype("List_" + "".join(ch for ch in key if ch.isalnum()))
+            dt.declare("mk", ("arr", z3.ArraySort(z3.IntSort(), es)), ("len", z3.IntSort()))
+            _list_cache[key] = dt.create()
+        return _list_cache[key]
 
     def fresh(self, name):
         n = z3.Int(fresh_name(name + ".len"))
@@ -382,6 +392,9 @@ def to_z3(v, sort=None):
         return v.expr
     if isinstance(v, VSet):
         return v.dom
+    if isinstance(v, VList):
+        dt = LIST(v.elem, v.is_str).z3sort()
+        return dt.mk(v.arr, v.len)
     if isinstance(v, VTuple):
         s = sort if isinstance(sort, TUPLE) else sort_of(v)
         return s.dt.mk(*[to_z3(i, si) for i, si in zip(v.items, s.items)])
@@ -398,6 +411,9 @@ def from_z3(e, sort):
         return VTuple([from_z3(sort.dt.accessor(0, i)(e), it) for i, it in enumerate(sort.items)])
     if isinstance(sort, SET):
         return VSet(sort.key, e)
+    if isinstance(sort, LIST):
+        dt = sort.z3sort()
+        return VList(sort.elem, dt.arr(e), dt.len(e), sort.is_str)
     return e
 
 
